@@ -160,7 +160,9 @@ static uint32_t fbits(float f) { uint32_t u; memcpy(&u, &f, 4); return u; }
 static float bitsf(uint32_t u) { float f; memcpy(&f, &u, 4); return f; }
 // a finite float with magnitude in 1e-6 .. 1e6 (log-uniform), sometimes a "round" decimal
 static float rand_coord(Rng &r) {
-  switch (r.below(12)) {
+  switch (r.below(13)) {
+    case 12: { // the few floats directly below / above an integer: the fraction prints as .000000 after a carry into the integer part
+      float k = (float)r.range(-16, 16); int steps = (int)r.range(1, 3); float v = k; for (int i = 0; i < steps; i++) v = std::nextafter(v, r.chance(50) ? -1e9f : 1e9f); return v; }
     case 0: return 0.0f;
     case 1: return -0.0f;
     case 2: return (float)r.range(-1000, 1000);
